@@ -541,6 +541,8 @@ def jobs(tier: str):
         for lb, tag in (("\n", "lf"), ("\r", "cr"), ("\r\n", "crlf")):
             t = lb.join(f"l{i}" for i in range(9)) + lb + "*" + lb + "**"
             out.append(dict(name=f"{charset}/data-12-lines-{tag}", charset=charset, fields=["data"], ld=3, dtemplate=t, weight=70))
+    # a log tail / CSV dump: far more lines than any flag constant misplaced into maxsplit (re.ASCII = 256, re.DOTALL = 16, ...)
+    out.append(dict(name="utf-8/data-300-lines-lf", charset="utf-8", fields=["data"], ld=2, dtemplate="\n".join(f"r{i}" for i in range(298)) + "\n*\n*", weight=70))
     out.append(dict(name="twin/data1", charset="utf-8", fields=["data"], ld=1, twin=True))
     return out
 
